@@ -61,7 +61,7 @@ Definition std_normal64 : sampler expr := zig 64 true ZIG_NORM_X ZIG_NORM_F norm
 (* exponential.rs:65-85 *)
 Definition exp_pdf (x : expr) : expr := eexp (eneg x).
 Definition exp_zero (um : Z) (u : expr) : sampler expr :=
-  w <- next_word ;; sret (dyx ZIG_EXP_R -. eln (u_std F64 w)).
+  w <- next_word ;; sret (dyx ZIG_EXP_R -. eln (u_open F64 w)).
 Definition exp1_64 : sampler expr := zig 64 false ZIG_EXP_X ZIG_EXP_F exp_pdf exp_zero.
 
 (* f32: computed in f64 and cast *)
